@@ -813,6 +813,13 @@ def _remainders(names, tier, is_default=True):
                     (("V", "V", tuple(occ) + tuple(virt), 1),), ()))
     new_o = [n for n in "mno" if n not in uniq]
     new_v = [n for n in "efg" if n not in uniq]
+    if len(uniq) == 4 and len(occ) == 2 and len(virt) == 2:
+        # the remainder shares only the occupied pair with the intermediate:
+        # permutation partners of the definition merge pairwise (prefactor 2,
+        # a term covers two positions of the definition)
+        out.append(("V_occ", "1",
+                    (("V", "V", tuple(occ) + (new_v[0], new_v[1]), 1),),
+                    tuple(virt) + (new_v[0], new_v[1])))
     if len(uniq) == 2 and len(occ) == 1 and len(virt) == 1:
         out.append(("V_contr", "1",
                     (("V", "V", (occ[0], new_o[0], virt[0], new_v[0]), 1),),
@@ -947,11 +954,14 @@ PERT_BASES = [
     ("t2eri_B", "x_all", "reduce"),
     ("p0_3_oo", "none", "expand_once"),
     ("t1_2", "none", "expand_once"),
+    # mixed prefactors with a symmetric remainder: the deviating term covers
+    # two positions of the definition
+    ("t2_2", "Y_anti", "reduce"),
+    ("t2_2", "V_contr", "reduce"),
+    ("t2_2", "V_occ", "reduce"),
 ]
 PERT_BASES_THOROUGH = PERT_BASES + [
-    ("t2_2", "Y_anti", "reduce"),
     ("t2_2", "none", "expand_full"),
-    ("t2_2", "V_contr", "reduce"),
     ("t2_2", "x_occ", "expand_once"),
     ("t2eri_A", "x_all", "reduce"),
     ("t2eri_B", "none", "expand_once"),
